@@ -8,6 +8,7 @@ import Bita.Spec.Tiling
 import Bita.Proofs.ChunkStream
 import Bita.Proofs.ChunkRule
 import Bita.Proofs.SpecChunks
+import Bita.Proofs.Reuse
 
 namespace Bita.Props.C10
 open Bita Bita.Spec
@@ -56,6 +57,31 @@ example :
     let P2 : Bytes := [9, 9, 9]
     cfg.Valid ∧ IsEnd (specChunks cfg ([] ++ S)) (0 + 6) ∧ IsEnd (specChunks cfg (P2 ++ S)) (3 + 6) ∧
     (chunksFrom (specChunks cfg ([] ++ S)) 6 0).length ≥ 2 := by
+  decide +kernel
+
+/-- **What resynchronisation is for.**  Source `P1 ++ S`, seed `P2 ++ S`, a common boundary at least one
+hash window into `S`: every source chunk that starts at or after that boundary is, byte for byte,
+a chunk of the seed - so the scan of the seed finds it (`Props.C06.unchanged_tail_not_fetched`:
+it is then not fetched). -/
+theorem resync_chunks_in_seed (cfg : Config) (hv : cfg.Valid) (hroll : ∀ n, cfg ≠ .fixed n)
+    (P1 P2 S : Bytes) (B : Nat) (hB : windowOf cfg ≤ B) (hBS : B ≤ S.length)
+    (h1 : IsEnd (chunkAll cfg (P1 ++ S)) (P1.length + B))
+    (h2 : IsEnd (chunkAll cfg (P2 ++ S)) (P2.length + B)) :
+    ∀ c ∈ chunkAll cfg (P1 ++ S), P1.length + B ≤ c.1 →
+      ∃ c' ∈ chunkAll cfg (P2 ++ S), slice (P2 ++ S) c'.1 c'.2 = slice (P1 ++ S) c.1 c.2 :=
+  Proofs.resync_chunks_in_seed cfg hv hroll P1 P2 S B hB hBS h1 h2
+
+/-- the hypotheses of `resync_chunks_in_seed` are met by a concrete pair (RollSum, window 2, prefixes of
+different lengths, common boundary 2 bytes into the common data) and the tails then agree -/
+example :
+    let cfg : Config := .rollsum ⟨1, 1, 5, 2⟩
+    let S : Bytes := [3, 1, 4, 1, 5, 9, 2, 6, 5, 3, 5, 8, 9, 7, 9]
+    let P1 : Bytes := [7, 7, 1]
+    let P2 : Bytes := [2]
+    cfg.Valid ∧ IsEnd (chunkAll cfg (P1 ++ S)) (P1.length + 2) ∧ IsEnd (chunkAll cfg (P2 ++ S)) (P2.length + 2) ∧
+    chunksFrom (chunkAll cfg (P1 ++ S)) (P1.length + 2) P1.length =
+      chunksFrom (chunkAll cfg (P2 ++ S)) (P2.length + 2) P2.length ∧
+    (chunksFrom (chunkAll cfg (P1 ++ S)) (P1.length + 2) P1.length).length = 9 := by
   decide +kernel
 
 end Bita.Props.C10
